@@ -10,6 +10,13 @@ Round 4 (graph level, harness/c16_graph.py + Driver/DemesGraph.lean): `DemesUtil
 (closed form), slicing shifts times and keeps sizes, both commute with the units, whole-graph invariance of rows / nu / events / calls, order of
 the sampled demes = final axis permutation, ancestor-order wiring for every arity.
 
+Round 5 (program level, harness/c16_prog.py + tools/gen_DemesProg.py): `_sizes_at_time`, `_migration_rate_in_interval`, `_make_nu_func`,
+`_get_integration_parameters`, `_get_demographic_events`, `_integrate_phi`, `_apply_event`, `_compute_sfs` and the tail of `SFS` are translated statement by
+statement into programs over a history of recorded calls (Generated/DemesProg.lean); each is `rfl`-equal to a kept copy (Model/DemesProg.lean) whose closed form
+(Lemmas/DemesProg*.lean) is the composition the earlier theorems speak about: wiring of `_integrate_phi` for d = 1..5, the user's Ne in every T / nu / M,
+whole-import scale invariance with the frozen branches' absolute size 1, the frozen nu outside the sweep, the per-interval plan of a sliced graph, the
+export / import boundary table.
+
 Here:
   K  — the generated formulas / tables vs the real functions: `_get_integration_parameters`, `_sizes_at_time`,
        `_make_nu_func` on random graphs (size expressions come back as terms, evaluated in IEEE arithmetic),
@@ -1140,21 +1147,33 @@ def run(chk, ctx):
                 'DemesUtil.slice on whole graphs, _augment_with_ancient_samples, the graph SFS hands to the importer (captured inside SFS; generations and years), intervals / demes '
                 'present / events / T / frozen flags / migration matrices / nu functions of whole graphs, the recorded call sequence of _compute_sfs and the final reorder_pops, '
                 '_admix_new_pop_phi for every choice and order of parents. '
+                'K program level (harness/c16_prog.py; generated programs of tools/gen_DemesProg.py): _get_demographic_events (events, demes present) and _get_integration_parameters '
+                '(times, nu entries, matrices, frozen lists; with and without Ne) of whole graphs, the complete recorded call sequence of the tail of SFS (phi_1D, every integrator call '
+                'with all keywords, remove_pop, _split_phi, _admix_*, reorder_pops, from_phi) also for exported programs and for graphs the code rejects, _apply_event for every '
+                'event kind and position (also absent demes and more than 5 populations), _integrate_phi for d = 1..5 with marker values, the model of discrete_demographic_events. '
                 'L3: each history is written twice (demes graph / hand-written dadi program) by harness/c16_scen.py; families graph, ancient (frozen branches, '
-                'only-ancient = sliced graph), scale/units/order/Ne relations, export+re-import of random programs (1-5 populations) and fixed edge cases; '
+                'only-ancient = sliced graph), scale/units/order/Ne relations, export+re-import of random programs (1-5 populations) and fixed edge cases; on recorded calls: every keyword '
+                'of the integrators receives the entry of its own index, halving Ne doubles every T and M and halves every nu incl. the frozen ones, scaling a graph keeps every call '
+                'except the frozen branches (absolute size 1), the frozen nu changes the result of the integrator only through the time step, rows of a sliced graph = rows of the original '
+                'on the moved interval; '
                 'distinct = different event sequence / axes / size functions / relation parameters; spectra disagreeing beyond 1e-9 (corners excluded) are '
                 'recomputed at 1/4 and 1/16 of the time step and on a grid twice as fine and must converge.')
     chk.unproved = ['the numerical spectrum itself (integration, from_phi): equality of graph and program spectra is validated, not proved',
-                    'the demes library (graph resolution, in_generations, discrete_demographic_events) is not modelled: the list of split / branch / merge / admix / pulse '
-                    'events is an input of the model; that a frozen branch gives the spectrum of an ancient sample is validated (L3), the graph transformation is proved',
+                    'the demes library (graph resolution, in_generations) is not modelled; discrete_demographic_events is an input of the generated programs (its hand-written model '
+                    'classifyEvents, used by C16_export_roundtrip only, is tied by K; the order of the children of a library split is a set iteration order and is taken from the library); '
+                    'that a frozen branch gives the spectrum of an ancient sample is validated (L3), the graph transformation is proved',
+                    '_split_phi / _admix_new_pop_phi / _admix_phi / PhiManip / Integration / from_phi appear in the translated import as recorded calls (their own tables: C16_wiring_*, C06)',
                     'the closed forms of the translated import loop (C16_source_*) hold for graphs with distinct deme names; list objects are values in the translation (the in-place '
                     'pop_ids.pop / append of _apply_event act on a list that is read again only through pop_ids) — tied by K on the recorded calls',
                     'C16_slice_plan is a statement per interval (every interval, every deme): that the LIST of intervals of the sliced graph is the shifted list is validated (K plan / L3 slice rows)',
                     'C16_export_roundtrip is the complete table for 1-4 older populations at one Split record (era names as output generates them); the whole-program export is validated (L3 export)',
                     'exp/log/power in size functions are uninterpreted in the theorems; the harness evaluates the model terms with numpy',
-                    'round trip through Demes.output is validated numerically; only the record table, end times and unit scalings are proved',
+                    'round trip of whole programs through Demes.output is validated numerically; proved: the record table, end times, unit scalings and the boundary table C16_export_roundtrip',
+                    'C16_slice_plan assumes exp (log z) = z for the uninterpreted functions (an epoch cut exactly at its end) besides log (exp z) = z',
                     'DemesUtil.swipe is not covered (its result has several roots, which from_demes rejects)']
     chk.assumptions += ['tools/gen_Demes.py (statement-level translator of the conversion layer; shape checks raise TranslateError)',
+                        'tools/gen_DemesProg.py (statement-level translator of the import loop into programs over recorded calls; Python containers as the combinators of Model/DemesPy.lean: '
+                        'insertion-ordered dict of lists, set as duplicate-free list, sorted() as insertion sort; closures as NuEntry; list objects as values)',
                         'C06 wiring table Generated/Admix.lean (destination axis / source axes / coefficients of every PhiManip pulse and constructor)']
     def timed(name, f, *a):
         t0 = time.time(); f(*a); chk.notes.append('%s: %.1fs' % (name, time.time() - t0))
